@@ -29,6 +29,7 @@ def items_of(t, i):
         "SEA": [s, ("enum", f"#[typeshare]\npub enum E{i} {{ A, B }}\n"), ("alias", f"#[typeshare]\npub type A{i} = String;\n")],
         "C": [c],
         "SC": [s, c],
+        "Conly": [c],
         "TieS": [("struct", f"#[typeshare]\npub struct Same {{ pub from{i}: u32 }}\n")],
         "TieE": [("enum", f"#[typeshare]\npub enum Same {{ V{i} }}\n")],
         "Ref": [("struct", f"#[typeshare]\npub struct R{i} {{ pub r: M1 }}\n")],
@@ -39,7 +40,8 @@ def render_tree(tree, mode):
     files = {}
     for i, t in enumerate(tree, 1):
         crate = f"c{i % 2}" if mode == "multi" else f"d{i}"
-        body = f"#[typeshare]\npub struct M{i} {{ pub m: u32 }}\n" + "".join(x[1] for x in items_of(t, i))
+        marker = "" if t == "Conly" else f"#[typeshare]\npub struct M{i} {{ pub m: u32 }}\n"       # Conly: a module of nothing but constants
+        body = marker + "".join(x[1] for x in items_of(t, i))
         if mode == "multi" and t == "Ref":
             body = f"use c1::M1;\n" + body
         files[f"{crate}/src/f{i}.rs"] = body
@@ -66,7 +68,7 @@ def run_once(d, lang, mode, env, tag):
 
 def features(tree):
     f = []
-    if sum(1 for t in tree if t in ("C", "SC")) >= 2:
+    if sum(1 for t in tree if t in ("C", "SC", "Conly")) >= 2:
         f.append("consts-in-several-files")
     if sum(1 for t in tree if t == "TieS") >= 2 or sum(1 for t in tree if t == "TieE") >= 2:
         f.append("same-name-same-kind")
@@ -140,14 +142,14 @@ def run(chk):
 
     def do_tree(idx, tree, perms):
         lang = langs[idx % 6]
-        if lang in ("kotlin", "swift", "scala") and any(t in ("C", "SC") for t in tree):
+        if lang in ("kotlin", "swift", "scala") and any(t in ("C", "SC", "Conly") for t in tree):
             lang = "typescript"          # write_const is todo!() there (C07 known finding)
         mode = "multi" if idx % 3 == 2 else "single"
         d = os.path.join(work, f"t{idx}")
         cli.make_tree(os.path.join(d, "src_root"), render_tree(tree, mode))
         out = []
         for c in perms:
-            order = ",".join(f"M{p}" for p in c["perm"])
+            order = ",".join((f"C{p}" if tree[p - 1] == "Conly" else f"M{p}") for p in c["perm"])
             r, sha, _ = run_once(d, lang, mode, {"TYPESHARE_VERIF_ORDER": order, "TYPESHARE_VERIF_THREADS": "2"}, "p" + "".join(map(str, c["perm"])))
             out.append((c, r, sha))
         return idx, tree, lang, mode, out
@@ -179,7 +181,7 @@ def run(chk):
     sample = rng.sample(sorted(trees), min(len(trees), 24 if thorough else 8))
     for k, tree in enumerate(sample):
         lang = langs[k % 6]
-        if lang in ("kotlin", "swift", "scala") and any(t in ("C", "SC") for t in tree):
+        if lang in ("kotlin", "swift", "scala") and any(t in ("C", "SC", "Conly") for t in tree):
             lang = "go"
         for mode in ("single", "multi"):
             d = os.path.join(work, f"th{k}{mode}")
@@ -208,11 +210,12 @@ def run(chk):
     # split invariance (single-file mode): the same items in one file, one file per item, grouped by kind
     for k, tree in enumerate(sample):
         lang = langs[(k + 3) % 6]
-        if lang in ("kotlin", "swift", "scala") and any(t in ("C", "SC") for t in tree):
+        if lang in ("kotlin", "swift", "scala") and any(t in ("C", "SC", "Conly") for t in tree):
             lang = "python"
         items = []
         for i, t in enumerate(tree, 1):
-            items.append(("struct", f"#[typeshare]\npub struct M{i} {{ pub m: u32 }}\n"))
+            if t != "Conly":
+                items.append(("struct", f"#[typeshare]\npub struct M{i} {{ pub m: u32 }}\n"))
             items += items_of(t, i)
         splits = {
             "one-file": {"a/src/all.rs": "".join(x[1] for x in items)},
